@@ -277,18 +277,16 @@ func (t *collationSortedTree[K, V]) Prefix(p K) iter.Seq2[K, V] {
 		return t.All()
 	}
 
-	keyS, colKey := t.cok.Transform(p)
+	keyS := []byte(string(p))
 
-	root := t.root
-	if t.root.pointer != nil {
-		root = lowestCommonParent[V, *collateLeafNode[V]](root, colKey)
-	}
-
+	// the collation key of p is in general not a prefix of the collation keys of
+	// the strings starting with p (level separators, contractions), so there is
+	// no subtree to narrow the scan to: filter the whole tree
 	hasPrefix := func(k K, v V) bool {
 		leafKeyS := []byte(string(k))
 		return bytes.HasPrefix(leafKeyS, keyS)
 	}
-	return filter(root, hasPrefix, t.restoreKey)
+	return filter(t.root, hasPrefix, t.restoreKey)
 }
 
 func (t *collationSortedTree[K, V]) Range(start, end K) iter.Seq2[K, V] {
